@@ -25,8 +25,20 @@ PAYLOADS = [
 ]
 
 
+DROPPED = "\x01\x08\x0b\x1f\ufffe\uffff\0"
+
+
 def payload(rng, k):
-    return rng.choice(PAYLOADS).replace("MK", "MK%dq" % k)
+    """a markup payload with a unique marker; one time in three with characters XML cannot represent inserted into
+    it (the code drops those: an escape that runs before the drop can be undone by it, e.g. `]]\x01>` or `<\x01script>`)"""
+    p = rng.choice(PAYLOADS + ["]]\x01></style><script>MK()</script>", "<\x01script>MK</script>", "&\ufffelt;MK"])
+    p = p.replace("MK", "MK%dq" % k)
+    if rng.chance(1, 3):
+        cs = list(p)
+        for _ in range(rng.range(1, 2)):
+            cs.insert(rng.below(len(cs) + 1), rng.choice(DROPPED))
+        p = "".join(cs)
+    return p
 
 
 def gen_case(rng, k):
